@@ -221,7 +221,23 @@ def _math_fn(name, sym_impl):
     return f, orig
 
 
+def _log10_stub(x):
+    """int(math.log10(spread)) in quadratic_cvar: the decade is fixed by the harness (env['log10_decade'] = d) and the
+    corresponding range 10^d <= x < 10^(d+1) is *assumed*; the returned float only feeds int()."""
+    c = cx.CUR
+    d = c.env.get("log10_decade")
+    if d is None:
+        raise EngineUnsupported("math.log10 of a symbolic value without a declared decade")
+    from fractions import Fraction
+
+    c.assume(tm.ge(x.t, tm.const(Fraction(10) ** d)))
+    c.assume(tm.lt(x.t, tm.const(Fraction(10) ** (d + 1))))
+    c.note("math.log10(symbolic) stubbed: decade %d assumed" % d)
+    return d + 0.5
+
+
 _MATH = {
+    "log10": _log10_stub,
     "exp": lambda x: SymReal(tm.exp(x.t)),
     "log": lambda x, *b: SymReal(cx.slog(x.t)) if not b else SymReal(cx._sdiv(cx.slog(x.t), cx.slog(cx._t(b[0])))),
     "sqrt": lambda x: SymReal(cx.ssqrt(x.t)),
